@@ -122,12 +122,31 @@ def main():
     only = None
     if '--only' in sys.argv:
         only = set(sys.argv[sys.argv.index('--only') + 1].split(','))
+    shard = None
+    if '--shard' in sys.argv:          # --shard i/n : every n-th mutant starting at i (run the shards concurrently with distinct REDTEAM_SCRATCH)
+        a, b = sys.argv[sys.argv.index('--shard') + 1].split('/')
+        shard = (int(a), int(b))
+    if '--merge' in sys.argv:          # --merge n : combine redteam_results.<i>.json into redteam_results.json
+        n = int(sys.argv[sys.argv.index('--merge') + 1])
+        allr = {}
+        for i in range(n):
+            for e in json.load(open(os.path.join(VERIF, 'redteam_results.%d.json' % i))):
+                allr[e['id']] = e
+        order = [m[0] for m in M]
+        out = [allr[i] for i in order if i in allr]
+        json.dump(out, open(os.path.join(VERIF, 'redteam_results.json'), 'w'), indent=1)
+        for i in range(n):
+            os.remove(os.path.join(VERIF, 'redteam_results.%d.json' % i))
+        print('merged %d of %d; not caught: %s' % (len(out), len(order), [e['id'] for e in out if e['status'] != 'caught']))
+        return
     if not os.path.isdir(os.path.join(SCR, '.git')):
         sh('rm -rf %s && mkdir -p %s && cd /repo && git archive HEAD | tar -x -C %s && cp /repo/Cargo.lock %s/ && cd %s && git init -q . && git add -A && git -c user.email=a@b -c user.name=x commit -qm base' % (SCR, SCR, SCR, SCR, SCR))
     env = dict(os.environ, GLAM_REPO=SCR, GLAM_VERIF_OUT=SCR + '_out')
     res = []
-    for (mid, rel, expr, checks) in M:
+    for idx, (mid, rel, expr, checks) in enumerate(M):
         if only and mid not in only:
+            continue
+        if shard and idx % shard[1] != shard[0]:
             continue
         sh('cd %s && git checkout -q -- .' % SCR)
         subprocess.run(['sed', '-i', expr, os.path.join(SCR, rel)])
@@ -145,7 +164,9 @@ def main():
         sys.stdout.flush()
         res.append((mid, 'caught' if fired else 'missed', fired))
     sh('cd %s && git checkout -q -- .' % SCR)
-    if not only:
+    if shard:
+        json.dump([{'id': a, 'status': b, 'fired': c} for a, b, c in res], open(os.path.join(VERIF, 'redteam_results.%d.json' % shard[0]), 'w'), indent=1)
+    elif not only:
         json.dump([{'id': a, 'status': b, 'fired': c} for a, b, c in res], open(os.path.join(VERIF, 'redteam_results.json'), 'w'), indent=1)
     print('summary: %d, missed: %s' % (len(res), [a for a, b, c in res if b != 'caught']))
 
